@@ -115,6 +115,12 @@ def handle (toks : List String) : String :=
     match parseMethod? m, parseNoneOrRat? value, parseNoneOrRat? mv, parseORatList? z with
     | some m, some v, some mv, some z => showE showORatList (impute m v mv z)
     | _, _, _, _ => "bad-op"
+  | ["imputef", m, value, mv, zs] =>
+    -- a frame: the same Imputer column by column (`;` separates the columns)
+    match parseMethod? m, parseNoneOrRat? value, parseNoneOrRat? mv, (zs.splitOn ";").mapM parseORatList? with
+    | some m, some v, some mv, some zs =>
+      showE (fun cols => ";".intercalate (cols.map showORatList)) (zs.mapM (impute m v mv))
+    | _, _, _, _ => "bad-op"
   | ["rife", feats, ivs, x] =>
     match (feats.splitOn ",").mapM parseFeat?, parsePairs? ivs, parsePanel? x with
     | some fs, some ivs, some x => showE showOTable (rife fs ivs x)
